@@ -35,7 +35,8 @@ Definition order_eqb (a b : order) : bool :=
   end.
 
 (* ---------- attributes ---------- *)
-Inductive pred := PEq (v : Z) | PChoice (vs : list Z) | PNot (v : Z).
+Inductive pred := PEq (v : Z) | PChoice (vs : list Z) | PNot (v : Z)
+  | PList (vs : list Z).      (* only for the 'modifications' attribute: the exact list of modification names *)
 Definition attrs := list (Z * Z).
 Definition tmpl := list (Z * pred).
 
@@ -50,12 +51,39 @@ Definition pred_ok (a : attrs) (k : Z) (p : pred) : bool :=
   | PChoice _, None => false
   | PNot v, Some x => negb (Z.eqb x v)
   | PNot _, None => true
+  | PList _, _ => false
   end.
 
 Definition attributes_match (a : attrs) (t : tmpl) : bool := forallb (fun kp => pred_ok a (fst kp) (snd kp)) t.
 
+(* _atoms_match (do_links.py l.27-53): the template's 'modifications' entry (attribute key 7) is compared with the names
+   of ALL modifications of the atom: absent = no condition; empty = the atom must have none; a list = exactly these
+   names; a single value / Choice / NotDefinedOrNot = every modification of the atom must satisfy it (and there must be
+   at least one) *)
+Definition mods_key : Z := 7.
+Fixpoint insertZ (x : Z) (l : list Z) : list Z := match l with [] => [x] | y :: r => if Z.leb x y then x :: y :: r else y :: insertZ x r end.
+Definition sortZ (l : list Z) : list Z := fold_right insertZ [] l.
+Fixpoint zlist_eqb (a b : list Z) : bool := match a, b with [], [] => true | x :: r, y :: s => Z.eqb x y && zlist_eqb r s | _, _ => false end.
+
+Definition mods_match (mods : list Z) (t : tmpl) : bool :=
+  match find (fun kp => Z.eqb (fst kp) mods_key) t with
+  | None => true
+  | Some (_, q) =>
+      let empty_spec := match q with PList [] => true | _ => false end in
+      let no_mods := match mods with [] => true | _ => false end in
+      (empty_spec && no_mods)
+      || (negb empty_spec && negb no_mods
+          && match q with
+             | PList l => zlist_eqb (sortZ mods) (sortZ l)
+             | _ => forallb (fun nm => pred_ok [(0, nm)] 0 q) mods
+             end)
+  end.
+
+Definition atoms_match (mods : list Z) (a : attrs) (t : tmpl) : bool :=
+  mods_match mods t && attributes_match a (filter (fun kp => negb (Z.eqb (fst kp) mods_key)) t).
+
 (* ---------- molecules and links ---------- *)
-Record mnode := { m_key : Z; m_resid : Z; m_attrs : attrs }.
+Record mnode := { m_key : Z; m_resid : Z; m_attrs : attrs; m_mods : list Z (* names of the modifications the atom carries *) }.
 Record inter := { i_atoms : list Z; i_params : list Z; i_meta : attrs }.
 (* meta.get('version', 0); the attribute key 0 stands for 'version' *)
 Definition i_version (i : inter) : Z := match aget (i_meta i) 0 with Some v => v | None => 0 end.
@@ -99,7 +127,7 @@ Definition ord_num (o : order) : Z := match o with ONum z => z | _ => 0 end.
 (* the conditions of match_link on one placement *)
 Definition node_ok (m : mol) (p : placement) (n : lnode) : bool :=
   match pget p (l_key n) with
-  | Some mk => match mfind m mk with Some mn => attributes_match (m_attrs mn) (l_tmpl n) | None => false end
+  | Some mk => match mfind m mk with Some mn => atoms_match (m_mods mn) (m_attrs mn) (l_tmpl n) | None => false end
   | None => false end.
 
 Definition induced_ok (L : link) (m : mol) (p : placement) : bool :=
@@ -121,14 +149,14 @@ Definition non_edges_ok (L : link) (m : mol) (p : placement) : bool :=
         | Some from =>
             forallb (fun nb => match mfind m nb with
                                | Some to => negb (Z.eqb (m_resid to) (m_resid from + ord_num (fst (snd ne)))
-                                                  && attributes_match (m_attrs to) (snd (snd ne)))
+                                                  && atoms_match (m_mods to) (m_attrs to) (snd (snd ne)))
                                | None => true end) (neighbours m mk)
         end
      end) (non_edges L).
 
 Definition pattern_ok (m : mol) (p : placement) (pat : list (Z * tmpl)) : bool :=
   forallb (fun kt => match pget p (fst kt) with
-                     | Some mk => match mfind m mk with Some mn => attributes_match (m_attrs mn) (snd kt) | None => false end
+                     | Some mk => match mfind m mk with Some mn => atoms_match (m_mods mn) (m_attrs mn) (snd kt) | None => false end
                      | None => false end) pat.
 
 Definition patterns_ok (L : link) (m : mol) (p : placement) : bool :=
@@ -192,7 +220,8 @@ Definition replace_nodes (L : link) (m : mol) (p : placement) : list mnode :=
       match find (fun ln => match pget p (l_key ln) with Some x => Z.eqb x (m_key mn) | None => false end) (lnodes L) with
       | Some ln => match l_replace ln with
                    | Some (upd, false) => {| m_key := m_key mn; m_resid := m_resid mn;
-                                             m_attrs := upd ++ filter (fun kv => negb (existsb (fun u => Z.eqb (fst u) (fst kv)) upd)) (m_attrs mn) |}
+                                             m_attrs := upd ++ filter (fun kv => negb (existsb (fun u => Z.eqb (fst u) (fst kv)) upd)) (m_attrs mn);
+                                             m_mods := m_mods mn |}
                    | _ => mn end
       | None => mn end) (nodes m).
 
